@@ -368,6 +368,18 @@ mut('m59-unlink-failure-finalizes', ['C18'], L, '''                    Err(curr)
                         }
                         curr
                     }''', 'a failed unlink still hands the element to reclamation')
+# ---- conversions (seq/conv)
+mut('m66-atomicrc-from-ref-no-clone', ['C01', 'C04', 'C08'], S, """    fn from(value: &Rc<T>) -> Self {
+        Self::from(value.clone())""", """    fn from(value: &Rc<T>) -> Self {
+        Self::from(Rc::from_raw(value.ptr))""", 'AtomicRc::from(&Rc) takes no share of its own')
+mut('m67-atomicweak-from-ref-no-clone', ['C03', 'C09'], W, """    fn from(value: &Weak<T>) -> Self {
+        Self::from(value.clone())""", """    fn from(value: &Weak<T>) -> Self {
+        Self::from(Weak::from_raw(value.ptr))""", 'AtomicWeak::from(&Weak) takes no weak share of its own')
+mut('m68-weak-from-snapshot-twice', ['C03', 'C04'], W, """    fn from(value: Snapshot<'g, T>) -> Self {
+        value.downgrade().counted()""", """    fn from(value: Snapshot<'g, T>) -> Self {
+        let _ = value.downgrade().counted();
+        value.downgrade().counted()""", 'Weak::from(Snapshot) counts twice and forgets... (drops) one: harmless control', expect='unknown')
+mut('m69-take-leaves-content', ['C01', 'C04', 'C08'], S, """        Rc::from_raw(core::mem::take(self.link.get_mut()))""", """        Rc::from_raw(*self.link.get_mut())""", 'AtomicRc::take returns the content but leaves it in the link: the share is released twice')
 # ---- C19
 mut('m60-eq-ptr-eq', ['C19'], S, '''impl<T: RcObject + PartialEq> PartialEq for Rc<T> {
     #[inline(always)]
